@@ -92,8 +92,8 @@ class Fuzz(Suite):
     """every Fuzz* entry point, no model: the oracle is "returns, in time, within the allocation budget" """
     name = "fuzz"
     go_cmd = "c53"
-    quick_n = 1500
-    thorough_n = 40000
+    quick_n = 1300
+    thorough_n = 12000
 
     def gen(self, rng, n, tier):
         info = core.run_impl(self.go_cmd, [{"id": 0, "target": "__list__"}, {"id": 1, "target": "__seeds__"}])
@@ -129,10 +129,12 @@ class Fuzz(Suite):
 
     def oracle(self, ctx, cases, impl, model):
         fails = {}
+        missing = sorted(c["id"] for c in cases if impl.get(c["id"]) is None)
+        if missing:     # cases run in order: the first one without a reply killed the process, the later ones never ran
+            fails[missing[0]] = "the harness died on this input (fatal error / panic outside the decoder's goroutine)"
         for c in cases:
             r = impl.get(c["id"])
             if r is None:
-                fails[c["id"]] = "the harness died on this input (fatal error / panic outside the decoder's goroutine)"
                 continue
             ex = r.get("extra") or {}
             n = sum(len(a) // 2 for a in c.get("args") or [])
@@ -158,9 +160,9 @@ class Varint(Suite):
     name = "varint"
     go_cmd = "c53"
     coq_imports = "From GoGit Require Import Model.C53Varint."
-    quick_n = 260
-    thorough_n = 6000
-    coq_chunk = 90
+    quick_n = 200
+    thorough_n = 2000
+    coq_chunk = 70
 
     def gen(self, rng, n, tier):
         cases = []
@@ -229,8 +231,8 @@ class Varint(Suite):
 class Framing(C34.Pkt):
     """the malformed pkt-line buckets of C34 again, compared with the model whose totality is proved"""
     name = "framing"
-    quick_n = 220
-    thorough_n = 4000
+    quick_n = 150
+    thorough_n = 1200
 
     def gen(self, rng, n, tier):
         cases = []
@@ -252,8 +254,8 @@ class Framing(C34.Pkt):
 class Messages(C35.Msgs):
     """malformed packp streams (derived from go-git's own encodings) against the model"""
     name = "messages"
-    quick_n = 260
-    thorough_n = 5000
+    quick_n = 170
+    thorough_n = 1500
 
     def gen(self, rng, n, tier):
         cases = [c for c in super().gen(rng, 3 * n, tier) if c["kind"] != "rt"]
